@@ -52,7 +52,8 @@ CheckOK(o) ==
   LET e == Cases[o.ci].expect
       v == PkgVerdict(e)
   IN /\ ~o.panic /\ ~o.hang /\ ~o.wrote
-     /\ v = "yes"  => ~o.failed
+     /\ (v = "yes" /\ Cases[o.ci].invalidsets = <<>>) => ~o.failed
+     /\ Cases[o.ci].invalidsets # <<>> => o.failed              \* every top-level set variable must be well-formed, used or not
      /\ v = "no"   => /\ o.failed /\ Len(o.diags) >= 1
                       /\ \E i \in DOMAIN e : e[i].verdict = "no" /\ \E r \in Range(e[i].reasons) : ReasonShown(o, e[i], r)
 
